@@ -600,7 +600,7 @@ type tierCfg struct {
 func tierOf(tier string) tierCfg {
 	if tier == "thorough" {
 		return tierCfg{
-			families: []family{{"GluonDB.mailbox.thorough.cfg", 3}, {"GluonDB.message.thorough.cfg", 3}, {"GluonDB.membership.thorough.cfg", 4}, {"GluonDB.tx.thorough.cfg", 2}},
+			families:   []family{{"GluonDB.mailbox.thorough.cfg", 3}, {"GluonDB.message.thorough.cfg", 3}, {"GluonDB.membership.thorough.cfg", 4}, {"GluonDB.tx.thorough.cfg", 2}},
 			famTimeout: 15 * time.Minute, generators: 4, perGen: 1500, workers: 8, budget: 14 * time.Minute}
 	}
 	return tierCfg{
